@@ -20,6 +20,9 @@ RULE = (
     "at least one SUT-vs-reference comparison that could fail was made; "
     "distinct = distinct (kind, class/opcode, operand-boundary class) "
     "signatures."
+    " Escape-encoded instructions are also assembled from their"
+    " assembly_string() by the library's assembler (x86-64 ELF) and"
+    " the recorded cfiDirectives operands compared."
 )
 ASSUMPTIONS = [
     "reference codec in vt/dwarfref.py is a faithful transcription of the "
